@@ -9,6 +9,10 @@ import ZCV.Lemmas.LayoutErase
 import ZCV.Lemmas.LayoutLoad
 import ZCV.Lemmas.LayoutSwapText
 import ZCV.Lemmas.Datatypes
+import ZCV.Lemmas.NoInternalLower
+import ZCV.Lemmas.DischargeElab
+import ZCV.Lemmas.DischargeExDoc
+import ZCV.Props.C10
 namespace ZCV.Props.C15
 open ZCV ZCV.Cfg ZCV.Conf ZCV.Grammar
 
@@ -300,5 +304,77 @@ example : SwapIn exConv exS exS.top ([] ++ .kv ['a'] ['1'] ⟨1, none⟩ :: .kv 
 example (st : TB) : KeysIndepAt exConv exS st ['a'] ['b'] :=
   C15_keysIndepAt_of_schema exConv exS st ['a'] ['b'] (by show target exConv exT ['a'] ≠ target exConv exT ['b']; decide)
     (by intro ty t h; simp [exS, Schema.gettype] at h)
+
+/-! ### the table hypotheses discharged -/
+
+/-- `C15_blank_comment_invariant_load` without the table hypothesis: `hlow` is discharged by the proved `lower_idem` -/
+theorem C15_blank_comment_invariant_load' (conv : Conv) (env : Env) (pkgs : Str → Pkg) (s : Schema) (url : Option Str)
+    (A B : List Str) (l : Str) (hs : schemaOK s = true) (hkeys : ∀ p ∈ s.types, lower p.1 = p.1)
+    (hni : ∀ x ∈ A ++ B, NoImportLine x) (hres : ∀ u ls, env.res u = some ls → ∀ x ∈ ls, NoImportLine x)
+    (hl : lineShape (strip l) = .skip) :
+    (load conv env pkgs s url (A ++ l :: B) []).toOption.map (·.value) =
+      (load conv env pkgs s url (A ++ B) []).toOption.map (·.value) :=
+  C15_blank_comment_invariant_load conv env pkgs s url A B l hs ZCV.lower_idem hkeys hni hres hl
+
+/-- `C15_permutation_invariant_text_load` without the table hypothesis (`hlow` discharged by `lower_idem`) -/
+theorem C15_permutation_invariant_text_load' (conv : Conv) (env : Env) (pkgs : Str → Pkg) (s : Schema) (url : Option Str)
+    (A B : List Str) (l1 l2 k1 raw1 k2 raw2 : Str)
+    (hs : schemaOK s = true) (hkeys : ∀ p ∈ s.types, lower p.1 = p.1)
+    (hni : ∀ x ∈ A ++ B, NoImportLine x) (hres : ∀ u ls, env.res u = some ls → ∀ x ∈ ls, NoImportLine x)
+    (h1 : lineShape (strip l1) = .kv k1 raw1) (h2 : lineShape (strip l2) = .kv k2 raw2)
+    (hi : ∀ sA, runLines 64 env treeCtx (activeOf url) url A 0
+        { ctx := { stack := [([], none, [])] }, stack := [], defs := [] } = .ok sA → KeysIndepAt conv s sA.ctx k1 k2) :
+    (load conv env pkgs s url (A ++ l1 :: l2 :: B) []).toOption.map (·.value) =
+      (load conv env pkgs s url (A ++ l2 :: l1 :: B) []).toOption.map (·.value) :=
+  C15_permutation_invariant_text_load conv env pkgs s url A B l1 l2 k1 raw1 k2 raw2 hs ZCV.lower_idem hkeys hni hres h1 h2 hi
+
+/-- **End to end (blank and comment lines).**  For the schema object `S` of ANY schema document the schema loader
+    accepts (`hkey`: its key types never turn a non-empty name into the empty string — true of the stock key types),
+    every datatype family, every text without `%import`, no overrides: inserting a blank or comment line anywhere
+    leaves the configuration unchanged, or both texts are rejected.  `schemaOK`, `hlow`, `hkeys` are discharged. -/
+theorem C15_blank_comment_end_to_end (eenv : Elab.Env) (fuel : Nat) (doc : Elab.Node) (S : Schema)
+    (hkey : ∀ (kt s r : Str), s ≠ [] → eenv.conv.key kt s = .ok r → r ≠ [])
+    (hS : Elab.elabSchema eenv fuel doc = .ok S)
+    (conv : Conv) (env : Env) (pkgs : Str → Pkg) (url : Option Str) (A B : List Str) (l : Str)
+    (hni : ∀ x ∈ A ++ B, NoImportLine x) (hres : ∀ u ls, env.res u = some ls → ∀ x ∈ ls, NoImportLine x)
+    (hl : lineShape (strip l) = .skip) :
+    (load conv env pkgs S url (A ++ l :: B) []).toOption.map (·.value) =
+      (load conv env pkgs S url (A ++ B) []).toOption.map (·.value) :=
+  C15_blank_comment_invariant_load' conv env pkgs S url A B l
+    (ZCV.Props.C10.C10_elab_schemaOK eenv fuel doc S hkey hS) (Elab.elab_types_keys_lower hS) hni hres hl
+
+/-- **End to end (swapping independent key lines)**, for the schema object of any accepted schema document -/
+theorem C15_permutation_end_to_end (eenv : Elab.Env) (fuel : Nat) (doc : Elab.Node) (S : Schema)
+    (hkey : ∀ (kt s r : Str), s ≠ [] → eenv.conv.key kt s = .ok r → r ≠ [])
+    (hS : Elab.elabSchema eenv fuel doc = .ok S)
+    (conv : Conv) (env : Env) (pkgs : Str → Pkg) (url : Option Str)
+    (A B : List Str) (l1 l2 k1 raw1 k2 raw2 : Str)
+    (hni : ∀ x ∈ A ++ B, NoImportLine x) (hres : ∀ u ls, env.res u = some ls → ∀ x ∈ ls, NoImportLine x)
+    (h1 : lineShape (strip l1) = .kv k1 raw1) (h2 : lineShape (strip l2) = .kv k2 raw2)
+    (hi : ∀ sA, runLines 64 env treeCtx (activeOf url) url A 0
+        { ctx := { stack := [([], none, [])] }, stack := [], defs := [] } = .ok sA → KeysIndepAt conv S sA.ctx k1 k2) :
+    (load conv env pkgs S url (A ++ l1 :: l2 :: B) []).toOption.map (·.value) =
+      (load conv env pkgs S url (A ++ l2 :: l1 :: B) []).toOption.map (·.value) :=
+  C15_permutation_invariant_text_load' conv env pkgs S url A B l1 l2 k1 raw1 k2 raw2
+    (ZCV.Props.C10.C10_elab_schemaOK eenv fuel doc S hkey hS) (Elab.elab_types_keys_lower hS) hni hres h1 h2 hi
+
+/-- no includable resource, no environment variable -/
+private def exEnv0 : Env := { res := fun _ => none, resolve := fun _ _ => .unknown, getenv := fun _ => none }
+
+/-- the hypotheses of the end-to-end statement are satisfiable: accepted schema document (base schema + component,
+    stock key types); a comment line inserted between two lines of an import-free text -/
+example : ∃ S, Elab.elabSchema Elab.Example.env 1 Elab.Example.doc = .ok S ∧
+    (load exConv exEnv0 (fun _ => .notImportable) S none
+        (["# a".toList] ++ "   # a comment ".toList :: ["".toList]) []).toOption.map (·.value) =
+      (load exConv exEnv0 (fun _ => .notImportable) S none (["# a".toList] ++ ["".toList]) []).toOption.map (·.value) := by
+  obtain ⟨S, hS⟩ := DischargeEx.dis_ex_doc_accepted
+  refine ⟨S, hS, C15_blank_comment_end_to_end Elab.Example.env 1 _ S
+    (by intro kt s r hs hr; exact Elab.stockConv_key_ne_nil kt s r hs hr) hS _ _ _ _ _ _ _ ?_
+    (by intro u ls h; cases h) ((C15_skip_lines _).mpr (Or.inr (by decide +kernel)))⟩
+  intro x hx a
+  simp only [List.cons_append, List.nil_append, List.mem_cons, List.mem_nil_iff, or_false] at hx
+  rcases hx with rfl | rfl
+  · rw [(C15_skip_lines _).mpr (Or.inr (by decide +kernel))]; simp
+  · rw [(C15_skip_lines _).mpr (Or.inl (by decide +kernel))]; simp
 
 end ZCV.Props.C15
